@@ -76,6 +76,76 @@ func runC13(c *Ctx) {
 				}
 			}
 		}
+		if len(got) == 0 {
+			// the keywords may be kept in a package-level table that the word is looked up in:
+			// `if tag, ok := table[word]; ok { return token(tag) }`; the table's entries are those its
+			// initialiser stores, and nothing else may write to it
+			tagNames := constNames(p.Lang.Types, "TokenTag")
+			allInstrs(id, func(in ssa.Instruction) {
+				lk, ok := in.(*ssa.Lookup)
+				if !ok || !lk.CommaOk || p.Render(lk.Index) != "l.src[l.tokenStart:l.pos]" {
+					return
+				}
+				ld, ok := lk.X.(*ssa.UnOp)
+				if !ok {
+					return
+				}
+				g, ok := ld.X.(*ssa.Global)
+				if !ok {
+					return
+				}
+				// the looked-up tag is what the token carries, under ok
+				used := false
+				for _, rc := range p.successResults(id) {
+					if strings.Contains(rc.Value, "Tag: "+p.Render(lk)+"#0") {
+						for _, gd := range rc.Guards {
+							if gd == p.Render(lk)+"#1" {
+								used = true
+							}
+						}
+					}
+				}
+				if !used {
+					return
+				}
+				for _, fn := range p.Funcs {
+					allInstrs(fn, func(in2 ssa.Instruction) {
+						mu, ok := in2.(*ssa.MapUpdate)
+						if !ok {
+							return
+						}
+						ld2, ok := mu.Map.(*ssa.UnOp)
+						var tgt ssa.Value = mu.Map
+						if ok {
+							tgt = ld2.X
+						}
+						isTable := tgt == ssa.Value(g)
+						if mm, ok := mu.Map.(*ssa.MakeMap); ok {
+							// the literal being built before it is stored into the global
+							for _, r := range referrersOf(mm) {
+								if st, ok := r.(*ssa.Store); ok && st.Addr == ssa.Value(g) {
+									isTable = true
+								}
+							}
+						}
+						if !isTable {
+							return
+						}
+						if fn.Name() != "init" {
+							got["(written in "+shortName(fn)+")"] = "?"
+							return
+						}
+						k, okK := constString(mu.Key)
+						v, okV := constInt(mu.Value)
+						if okK && okV {
+							got[k] = tagNames[v]
+						} else {
+							got["(non-constant entry)"] = "?"
+						}
+					})
+				}
+			})
+		}
 		var words []string
 		for w := range keywordOracle {
 			words = append(words, w)
